@@ -35,7 +35,8 @@ def reproduces (d z : Nat) (sig : Bytes) : Bool :=
       | none => false
     tryK k1 || tryK (N - k1)
 
-def spec (op impl : String) : String :=
+/-- `rcv` = `recoverPubkey sig hash` for the three ops that recover (computed once per distinct (sig, hash) by `step`) -/
+def spec (rcv : Option Bytes) (op impl : String) : String :=
   let h (s : String) := (hex? s).getD []
   match op.splitOn " " with
   | ["newpub", b] => showU (newPubKey (h b))
@@ -76,9 +77,13 @@ def spec (op impl : String) : String :=
       | ["ok", s] => if (h s).length == 65 && reproduces (ofBE (h d)) (ofBE (h z)) (h s) then impl
                      else "ok <a signature that textbook ECDSA produces for some nonce>"
       | _ => "ok <signature>"
-  | ["verify", p, s, z] => showU (verifyPubKeySignedHash (h p) (h s) (h z))
-  | ["verifyrec", s, z] => showU (verifySignatureRecoverPubKey (h s) (h z))
-  | ["pubfromsig", s, z] => showB (pubKeyFromSig (h s) (h z))
+  | ["verify", p, s, _] => showU (verifyPubKeySignedHashWith rcv (h p) (h s))
+  | ["verifyrec", s, _] => showU (match rcv with
+      | none => .err (E "ErrInvalidSigPubKeyRecovery")
+      | some _ => if !sigWellFormed (parseSig (h s)) then .err (E "ErrInvalidHashForSig") else .ok ())
+  | ["pubfromsig", _, _] => showB (match rcv with
+      | none => .err (E "ErrInvalidSigPubKeyRecovery")
+      | some p => .ok p)
   | ["rawverify", p, s, z] => match parsePubLoose (h p) with
     | none => "badpub"
     | some Q => if verify Q (ofBE (h z)) (ofBE ((h s).take 32)) (ofBE ((h s).drop 32)) then "true" else "false"
@@ -100,8 +105,27 @@ where
     | pre :: _ => if pre == 2 || pre == 3 then parsePub b else none
     | [] => none
 
-def step (op impl : String) : String × Verdict := (spec op impl, .fail)
+/-- small cache of public-key recoveries: the generator asks `pubfromsig`, `verify`, `verifyrec` about the same (sig, hash) -/
+abbrev Cache := List (String × Option Bytes)
+
+def sigHashOf (op : String) : Option (String × String) :=
+  match op.splitOn " " with
+  | ["verify", _, s, z] => some (s, z)
+  | ["verifyrec", s, z] => some (s, z)
+  | ["pubfromsig", s, z] => some (s, z)
+  | _ => none
+
+def step (c : Cache) (op impl : String) : Cache × String × Verdict :=
+  match sigHashOf op with
+  | none => (c, spec none op impl, .fail)
+  | some (s, z) =>
+    let key := s ++ "/" ++ z
+    match c.lookup key with
+    | some r => (c, spec r op impl, .fail)
+    | none =>
+      let r := recoverPubkey ((hex? s).getD []) ((hex? z).getD [])
+      (((key, r) :: c).take 6, spec r op impl, .fail)
 
 end Sky.C14
 
-def main : IO Unit := Sky.Drv.loopPure Sky.C14.step
+def main : IO Unit := Sky.Drv.loop (σ := Sky.C14.Cache) Sky.C14.step []
